@@ -1210,6 +1210,9 @@ func (ctx *RenderContext) getItem(container, index interface{}) (interface{}, er
 			// Convert the index to the map's key type if possible
 			keyType := v.Type().Key()
 			indexValue := reflect.ValueOf(index)
+			if !indexValue.IsValid() {
+				return nil, nil // A nil index is not a key of any map
+			}
 
 			if indexValue.Type().ConvertibleTo(keyType) {
 				mapKey = indexValue.Convert(keyType)
